@@ -6,7 +6,14 @@ from . import gen
 from .model import Model, runs
 
 
+# list objects a "caller" keeps and passes again: one per distinct node bunch and graph under construction.
+# The model always works from the op (the caller's intent); if the library modified the caller's list, the next
+# call with the same bunch shows it.
+_CALLER_LISTS = {}
+
+
 def new_graph(dn, directed, removal=True):
+    _CALLER_LISTS.clear()
     cls = dn.DynDiGraph if directed else dn.DynGraph
     return cls() if removal else cls(edge_removal=False)
 
@@ -21,7 +28,14 @@ def call(dn, G, op):
     if kind in ("path", "star", "cycle"):
         # "nodes: iterable container": lists and one-shot iterators alternate
         ns = list(op[1])
-        return getattr(G, "add_" + kind)(iter(ns) if len(ns) % 2 else ns, op[2])
+        if len(ns) % 2:
+            return getattr(G, "add_" + kind)(iter(ns), op[2])
+        try:
+            key = (kind, tuple(ns))
+            held = _CALLER_LISTS.setdefault(key, ns)
+        except TypeError:
+            held = ns
+        return getattr(G, "add_" + kind)(held, op[2])
     if kind in ("dn.path", "dn.star", "dn.cycle"):
         f = getattr(dn, "add_" + kind[3:])
         if op[3] is None:
@@ -29,6 +43,8 @@ def call(dn, G, op):
         return f(G, list(op[1]), op[2], e=op[3])
     if kind == "node":
         return G.add_node(op[1], **op[2])
+    if kind == "nodes_from":
+        return G.add_nodes_from([(n, dict(d)) for n, d in op[1]])
     if kind == "clear":
         return G.clear()
     if kind == "clear_edges":
@@ -56,6 +72,10 @@ def step(ctx, dn, G, m, op, oracle="add_interaction:outcome"):
         call(dn, G, op)
         m.clear(edges_only=op[0] == "clear_edges")
         return True, False
+    if op[0] == "nodes_from":
+        call(dn, G, op)
+        gen.advance(m, op)
+        return True, False
     if m.removal:
         m2 = m.copy()
         exp = gen.advance(m2, op)
@@ -66,6 +86,11 @@ def step(ctx, dn, G, m, op, oracle="add_interaction:outcome"):
         return ok, exp is not None
     # accumulative mode: which calls are rejected is not asserted (DESIGN 4.14); only the type
     els = gen.elements(op)
+    if not els and op[0] != "add" and op[2] is not None:
+        # a bunch that yields no pair: nothing is added, nothing is raised
+        got, ex = outcome(dn, G, op)
+        ok = ctx.expect(oracle, got, None, dict(op=op, note="empty bunch"))
+        return ok, False
     if op[0] != "add" and len(els) != 1:
         raise ValueError("accumulative workloads use single-element ops")
     got, ex = outcome(dn, G, op)
@@ -113,6 +138,10 @@ def build_accepted(dn, prog, directed, removal=True):
         if op[0] in ("clear", "clear_edges"):
             call(dn, G, op)
             m.clear(edges_only=op[0] == "clear_edges")
+            continue
+        if op[0] == "nodes_from":
+            call(dn, G, op)
+            gen.advance(m, op)
             continue
         m2 = m.copy()
         exp = gen.advance(m2, op)
